@@ -209,6 +209,11 @@ func (vr *VerifiableReader) cacheWithReader(ctx context.Context, currentDepth in
 			if !ok {
 				break
 			}
+			if chunkSize <= 0 {
+				// e.g. two chunks with the same chunkOffset in the TOC: no progress, this loop would never end.
+				rErr = fmt.Errorf("invalid chunk of %q (off:%d,size:%d)", name, chunkOffset, chunkSize)
+				return false
+			}
 			nr += chunkSize
 
 			if err := sem.Acquire(ctx, 1); err != nil {
